@@ -194,9 +194,9 @@ def cmdTT (rest : String) (tt : TT) : List String × TT := Id.run do
 def cmdBudget (rest : String) : List String :=
   let parts := semis rest
   match parseGo (parts.headD "" != "b") (" " ++ parts.getD 1 "") with
-  | .search d t => [s!"{d} {t}"]
-  | .nosearch => ["nosearch"]
-  | .panic => ["!panic"]
+  | (msgs, .search d t) => msgs ++ [s!"{d} {t}"]
+  | (msgs, .nosearch) => msgs ++ ["nosearch"]
+  | (msgs, .panic) => msgs ++ ["!panic"]
 
 def cmdPerft (rest : String) : List String :=
   let parts := semis rest
@@ -207,7 +207,8 @@ def cmdPerft (rest : String) : List String :=
 
 structure SearchOpts where
   depth : Int := 1
-  stopAt : Option Nat := none
+  inject : List (Nat × String) := []
+  maxTime : Int := -1
   subMask : Option Nat := none
   trace : Nat := 0
   bypass : Bool := false
@@ -218,7 +219,12 @@ def parseOpts (s : String) : SearchOpts :=
   (words s).foldl (fun o w =>
     match w.splitOn "=" with
     | ["depth", v] => { o with depth := (parseInt? v).getD 1 }
-    | ["stop", v] => { o with stopAt := if v == "never" then none else parseNat? v }
+    | ["stop", v] => if v == "never" then o else { o with inject := o.inject ++ [((parseNat? v).getD 0, "stop")] }
+    | ["inject", v] =>
+      (match v.splitOn ":" with
+       | k :: r => { o with inject := o.inject ++ [((parseNat? k).getD 0, (String.intercalate ":" r).replace "_" " ")] }
+       | _ => o)
+    | ["maxtime", v] => { o with maxTime := (parseInt? v).getD (-1) }
     | ["pollmask", v] => { o with subMask := if v == "real" then none else parseNat? v }
     | ["trace", v] => { o with trace := if v == "digest" then 1 else if v == "full" then 2 else 0 }
     | ["tt", v] => { o with bypass := v == "bypass", cold := v != "keep" }
@@ -233,11 +239,13 @@ def cmdSearch (rest : String) (tt : TT) : List String × TT :=
   | .ok (g, rep) =>
     let o := parseOpts (parts.getD 1 "")
     let tt := if o.cold then tt.clear else tt
-    let cfg : Cfg := { stopAt := fun k => o.stopAt == some k, subMask := o.subMask, ttBypass := o.bypass, trace := o.trace }
+    let cfg : Cfg := { world := fun k => { lines := (o.inject.filter (·.1 == k)).map (·.2) }, maxTime := o.maxTime,
+                       subMask := o.subMask, ttBypass := o.bypass, trace := o.trace }
     let (r, e) := search chessRules cfg g o.depth tt rep
     if e.rep.overflow then (e.out.toList ++ ["!panic"], e.tt) else
     let lines := e.out.toList ++
-      [ s!"result best={r.bestMove.hex} nodes={r.nodes} score={r.score} depth={r.depth} complete={if r.complete then 1 else 0} tthits={r.ttHits}",
+      [ row "deferred" e.deferred, row "pending" e.chan,
+        s!"result best={r.bestMove.hex} nodes={r.nodes} score={r.score} depth={r.depth} complete={if r.complete then 1 else 0} tthits={r.ttHits}",
         row "polls" (e.pollLog.toList.map toString),
         s!"end ply={e.ply} repidx={e.rep.index} stopping={if e.stopping then 1 else 0}",
         s!"unchanged game=1 rep={if e.rep.pre == rep.pre && e.rep.index == rep.index then 1 else 0}",
@@ -273,7 +281,10 @@ def handle (line : String) (tt : TT) : List String × TT :=
   | "budget" => (cmdBudget rest, tt)
   | "perft" => (cmdPerft rest, tt)
   | "search" => cmdSearch rest tt
-  | "oracle" => (Spec.oracle rest, tt)
+  | "oracle" =>
+    (match words rest with
+     | "attackall" :: s :: r => cmdAttackAll ((parseNat? s).getD 1).toUInt64 ((r.head?.bind parseNat?).getD 1) true
+     | _ => Spec.oracle rest, tt)
   | _ => (["!unknown"], tt)
 
 partial def loop (h : IO.FS.Stream) (out : IO.FS.Stream) (tt : TT) : IO Unit := do
